@@ -127,6 +127,13 @@ func writeStream(c *Ctx, cfg wcfg, input []byte, del int, g *prng.Rng) writeResu
 		case delPartition, delFlush:
 			p := 0
 			for _, k := range parts {
+				if g.N(8) == 0 {
+					// an empty Write is legal and must be a no-op
+					if n0, err0 := w.Write(nil); n0 != 0 || err0 != nil {
+						res.failed, res.err = "Write(nil)", fmt.Errorf("n=%d err=%v", n0, err0)
+						return
+					}
+				}
 				n, err := writeRecycled(w, input[p:p+k])
 				res.calls = append(res.calls, fmt.Sprintf("Write(%d)", k))
 				if err != nil || n != k {
@@ -238,6 +245,10 @@ func readStream(c *Ctx, frame []byte, conc int, mode int, blockMax int, g *prng.
 				return
 			}
 			res.out = append(res.out, buf[:n]...)
+			// the caller owns buf between calls and may do anything with it
+			for j := 0; j < n; j++ {
+				buf[j] = 0xE3
+			}
 			if err == io.EOF {
 				return
 			}
